@@ -15,6 +15,8 @@ AttrSetsT == {A0, ARcv, AProc, AConn, AExt}
 KeySetsQ  == {{KSig}, {KSig, KPipe, KId}}
 KeySetsT  == {{KSig}, {KSigOut}, {KSig, KPipe}, {KSig, KPipe, KId}, {KKind}}
 AllStacks == {"console", "sampled", "tee", "teesampled"}
+AttrSets2 == {ARcv, AProc}
+StackTS   == {"teesampled"}
 
 OwnScope(h) == IF h % 3 = 0 THEN {<<KSig, "mine">>} ELSE IF h % 2 = 1 THEN {<<"own", "1">>} ELSE {}
 EntryF(h)   == IF h % 2 = 0 THEN << <<"ef", "x">> >> ELSE <<>>
